@@ -117,97 +117,169 @@ theorem mem_foldl_delIf (c : File → Bool) (L : List Name) :
 
 /-! ### a store that does not evict -/
 
+/-- the map only names files that exist, each once -/
+def MapOK (s : State) : Prop := (KV.keys s.map).Nodup ∧ ∀ k ∈ KV.keys s.map, k ∈ KV.keys s.files
+
+/-- no LRU eviction can happen: eviction is switched off, or every file fits the map -/
+def Fits (s : State) : Prop := s.cap = 0 ∨ (MapOK s ∧ (KV.keys s.files).length ≤ s.cap)
+
 structure Calm (s : State) : Prop where
-  cap : s.cap = 0
+  fits : Fits s
   nodup : (KV.keys s.files).Nodup
   lat : ∀ p ∈ s.files, p.2.lat.isSome
 
-theorem evict_calm {s : State} (h : s.cap = 0) : evictIfNeeded s = s := by
-  unfold evictIfNeeded; simp [h]
+theorem evict_fits {s : State} (h : s.cap = 0 ∨ (MapOK s ∧ (KV.keys s.files).length ≤ s.cap)) : evictIfNeeded s = s := by
+  unfold evictIfNeeded
+  rcases h with h | ⟨hm, hl⟩
+  · simp [h]
+  · have : s.map.length ≤ s.cap := by
+      have := List.Nodup.length_le_of_subset hm.1 (fun k hk => hm.2 k hk)
+      rw [KV.keys_length] at this
+      omega
+    simp [this]
 
 /-- same disk, clock and capacity (only the map may differ) -/
 def SameDisk (s s' : State) : Prop := s'.files = s.files ∧ s'.cap = s.cap ∧ s'.now = s.now
 
-theorem SameDisk.calm {s s' : State} (h : SameDisk s s') (hc : Calm s) : Calm s' :=
-  ⟨by rw [h.2.1]; exact hc.cap, by rw [h.1]; exact hc.nodup, by rw [h.1]; exact hc.lat⟩
+theorem moveFront_keys (m : List (Name × Int)) (n : Name) :
+    ((KV.keys m).Nodup → (KV.keys (moveFront m n)).Nodup) ∧ (∀ k, k ∈ KV.keys (moveFront m n) → k ∈ KV.keys m) := by
+  unfold moveFront
+  cases hg : KV.get m n with
+  | none => exact ⟨id, fun _ h => h⟩
+  | some t =>
+    simp only
+    refine ⟨fun hn => ?_, fun k hk => ?_⟩
+    · simp only [KV.keys, List.map_cons, List.nodup_cons]
+      exact ⟨fun h => (KV.mem_keys_del.mp h).2 rfl, List.Nodup.sublist (KV.keys_del_sublist m n) hn⟩
+    · simp only [KV.keys, List.map_cons, List.mem_cons] at hk
+      rcases hk with e | hk
+      · subst e; exact KV.get_some_key hg
+      · exact (KV.mem_keys_del.mp hk).1
 
-theorem SameDisk.trans {a b c : State} (h1 : SameDisk a b) (h2 : SameDisk b c) : SameDisk a c :=
-  ⟨h2.1.trans h1.1, h2.2.1.trans h1.2.1, h2.2.2.trans h1.2.2⟩
-
-theorem storeEntry_same {s : State} (hc : Calm s) (n : Name) :
-    SameDisk s (storeEntry s n) ∧ (KV.has s.files n = true → KV.has (storeEntry s n).map n = true) := by
+theorem storeEntry_calm {s : State} (hc : Calm s) (n : Name) (hnm : KV.has s.map n = false) :
+    SameDisk s (storeEntry s n) ∧ Calm (storeEntry s n) ∧ (KV.has s.files n = true → KV.has (storeEntry s n).map n = true) := by
   unfold storeEntry
   cases hg : KV.get s.files n with
-  | none => exact ⟨⟨rfl, rfl, rfl⟩, by simp [KV.has, hg]⟩
+  | none => exact ⟨⟨rfl, rfl, rfl⟩, hc, by simp [KV.has, hg]⟩
   | some f =>
     have hl := hc.lat _ (KV.get_some_mem hg)
     cases hlat : f.lat with
     | none => simp [hlat] at hl
     | some l =>
       simp only [hlat]
-      rw [evict_calm (s := { s with map := (n, l) :: s.map }) hc.cap]
-      exact ⟨⟨rfl, rfl, rfl⟩, fun _ => by simp [KV.has, KV.get]⟩
+      have hnk : n ∉ KV.keys s.map := by
+        apply KV.get_none_not_key
+        cases h : KV.get s.map n with
+        | none => rfl
+        | some _ => simp [KV.has, h] at hnm
+      have hfits : Fits { s with map := (n, l) :: s.map } := by
+        rcases hc.fits with h | ⟨hm, hlen⟩
+        · exact Or.inl h
+        · refine Or.inr ⟨⟨?_, ?_⟩, hlen⟩
+          · simp only [KV.keys, List.map_cons, List.nodup_cons]; exact ⟨hnk, hm.1⟩
+          · intro k hk
+            simp only [KV.keys, List.map_cons, List.mem_cons] at hk
+            rcases hk with e | hk
+            · subst e; exact KV.get_some_key hg
+            · exact hm.2 k hk
+      rw [evict_fits (s := { s with map := (n, l) :: s.map }) hfits]
+      exact ⟨⟨rfl, rfl, rfl⟩, ⟨hfits, hc.nodup, hc.lat⟩, fun _ => by simp [KV.has, KV.get]⟩
 
-theorem reload_same {s : State} (hc : Calm s) (n : Name) :
-    SameDisk s (reload s n).1 ∧ ((reload s n).2 = true → KV.has (reload s n).1.map n = true) ∧
+theorem reload_calm {s : State} (hc : Calm s) (n : Name) :
+    SameDisk s (reload s n).1 ∧ Calm (reload s n).1 ∧ ((reload s n).2 = true → KV.has (reload s n).1.map n = true) ∧
     ((reload s n).2 = false → KV.has s.files n = false) := by
   unfold reload
   split
-  · rename_i h; exact ⟨⟨rfl, rfl, rfl⟩, fun _ => h, by simp⟩
-  · split
+  · rename_i h; exact ⟨⟨rfl, rfl, rfl⟩, hc, fun _ => h, by simp⟩
+  · rename_i hnm
+    have hnm' : KV.has s.map n = false := by simpa using hnm
+    split
     · rename_i h
-      exact ⟨(storeEntry_same hc n).1, fun _ => (storeEntry_same hc n).2 h, by simp⟩
-    · rename_i h; exact ⟨⟨rfl, rfl, rfl⟩, by simp, fun _ => by simpa using h⟩
+      have := storeEntry_calm hc n hnm'
+      exact ⟨this.1, this.2.1, fun _ => this.2.2 h, by simp⟩
+    · rename_i h; exact ⟨⟨rfl, rfl, rfl⟩, hc, by simp, fun _ => by simpa using h⟩
+
+theorem calm_map {s : State} (hc : Calm s) (m : List (Name × Int))
+    (hn : (KV.keys s.map).Nodup → (KV.keys m).Nodup) (hs : ∀ k, k ∈ KV.keys m → k ∈ KV.keys s.map) :
+    Calm { s with map := m } := by
+  refine ⟨?_, hc.nodup, hc.lat⟩
+  rcases hc.fits with h | ⟨hm, hlen⟩
+  · exact Or.inl h
+  · exact Or.inr ⟨⟨hn hm.1, fun k hk => hm.2 k (hs k hk)⟩, hlen⟩
 
 theorem peek_same {s : State} (hc : Calm s) (n : Name) :
-    SameDisk s (peek s n).1 ∧ ((peek s n).2 = .ok ∨ KV.has s.files n = false) := by
+    SameDisk s (peek s n).1 ∧ Calm (peek s n).1 ∧ ((peek s n).2 = .ok ∨ KV.has s.files n = false) := by
   unfold peek
-  have hr := reload_same hc n
+  have hr := reload_calm hc n
   cases hrel : reload s n with
   | mk s1 b =>
     rw [hrel] at hr
     cases b with
-    | false => exact ⟨hr.1, Or.inr (hr.2.2 rfl)⟩
+    | false => exact ⟨hr.1, hr.2.1, Or.inr (hr.2.2.2 rfl)⟩
     | true =>
       simp only
-      have := hr.2.1 rfl
+      have := hr.2.2.1 rfl
       simp only [this, if_true]
-      exact ⟨⟨hr.1.1, hr.1.2.1, hr.1.2.2⟩, by simp⟩
+      have hk := moveFront_keys s1.map n
+      exact ⟨⟨hr.1.1, hr.1.2.1, hr.1.2.2⟩, calm_map hr.2.1 _ hk.1 hk.2, by simp⟩
+
+theorem delIf_length (files : List (Name × File)) (m : Name) (c : File → Bool) : (delIf files m c).length ≤ files.length := by
+  unfold delIf
+  split
+  · split
+    · exact List.length_filter_le _ _
+    · exact Nat.le_refl _
+  · exact Nat.le_refl _
+
+theorem calm_del {s : State} (hc : Calm s) (n : Name) :
+    Calm { s with files := KV.del s.files n, map := KV.del s.map n } := by
+  refine ⟨?_, keys_del_nodup hc.nodup n, fun p hp => hc.lat p (KV.mem_del.mp hp).1⟩
+  rcases hc.fits with h | ⟨hmo, hl⟩
+  · exact Or.inl h
+  · refine Or.inr ⟨⟨List.Nodup.sublist (KV.keys_del_sublist _ _) hmo.1, ?_⟩, ?_⟩
+    · intro k hk
+      have hk' := KV.mem_keys_del.mp hk
+      exact KV.mem_keys_del.mpr ⟨hmo.2 k hk'.1, hk'.2⟩
+    · exact Nat.le_trans (KV.keys_del_sublist s.files n).length_le hl
 
 theorem delete_calm {s : State} (hc : Calm s) (n : Name) :
     (delete s n).1.files = delIf s.files n (fun f => !isPersisted f) ∧ (delete s n).1.cap = s.cap ∧
-    (delete s n).1.now = s.now := by
+    (delete s n).1.now = s.now ∧ Calm (delete s n).1 := by
   unfold delete
-  have hr := reload_same hc n
+  have hr := reload_calm hc n
   cases hrel : reload s n with
   | mk s1 b =>
     rw [hrel] at hr
+    have hc1 : Calm s1 := hr.2.1
+    have hmapdel : Calm { s1 with map := KV.del s1.map n } :=
+      calm_map hc1 _ (fun h => List.Nodup.sublist (KV.keys_del_sublist _ _) h) (fun k hk => (KV.mem_keys_del.mp hk).1)
     cases b with
     | false =>
-      have hno := hr.2.2 rfl
+      have hno := hr.2.2.2 rfl
       have hg : KV.get s.files n = none := by
         cases h : KV.get s.files n with
         | none => rfl
         | some _ => simp [KV.has, h] at hno
       simp only [delIf, hg]
-      exact ⟨hr.1.1, hr.1.2.1, hr.1.2.2⟩
+      exact ⟨hr.1.1, hr.1.2.1, hr.1.2.2, hc1⟩
     | true =>
-      have hm := hr.2.1 rfl
+      have hm := hr.2.2.1 rfl
       simp only [hm, Bool.not_true, Bool.false_eq_true, if_false]
       unfold entryDelete delIf
       rw [hr.1.1]
       cases hg : KV.get s.files n with
-      | none => exact ⟨hr.1.1, hr.1.2.1, hr.1.2.2⟩
+      | none => exact ⟨hr.1.1, hr.1.2.1, hr.1.2.2, hmapdel⟩
       | some f =>
         simp only
         by_cases hp : isPersisted f = true
-        · simp [hp]; exact ⟨hr.1.1, hr.1.2.1, hr.1.2.2⟩
-        · simp [hp]; exact ⟨hr.1.2.1, hr.1.2.2⟩
-
-theorem calm_of_files {s s' : State} (hc : Calm s) (m : Name) (c : File → Bool)
-    (hf : s'.files = delIf s.files m c) (hcap : s'.cap = s.cap) : Calm s' :=
-  ⟨by rw [hcap]; exact hc.cap, by rw [hf]; exact delIf_nodup hc.nodup m c,
-   by rw [hf]; exact fun p hp => hc.lat p (delIf_sub _ _ _ p hp)⟩
+        · simp only [hp, if_true, Bool.not_true, Bool.false_eq_true, if_false]
+          exact ⟨hr.1.1, hr.1.2.1, hr.1.2.2, hmapdel⟩
+        · have hp' : isPersisted f = false := by simpa using hp
+          simp only [hp', Bool.false_eq_true, if_false, Bool.not_false, if_true]
+          refine ⟨trivial, hr.1.2.1, hr.1.2.2, ?_⟩
+          have := calm_del hc1 n
+          rw [show s1.files = s.files from hr.1.1] at this
+          exact this
 
 /-! ### the normal TTL pass -/
 
@@ -215,24 +287,30 @@ def idleB (now tti ttl : Int) (f : File) : Bool := ready now f tti ttl && !isPer
 
 theorem ttlVisit_calm (tti ttl : Int) (used : Nat) (s : State) (sc : Nat) (m : Name) (hc : Calm s) :
     (ttlVisit tti ttl none used (s, sc) m).1.files = delIf s.files m (idleB s.now tti ttl) ∧
-    (ttlVisit tti ttl none used (s, sc) m).1.cap = s.cap ∧ (ttlVisit tti ttl none used (s, sc) m).1.now = s.now := by
+    (ttlVisit tti ttl none used (s, sc) m).1.cap = s.cap ∧ (ttlVisit tti ttl none used (s, sc) m).1.now = s.now ∧
+    Calm (ttlVisit tti ttl none used (s, sc) m).1 := by
   unfold ttlVisit
   simp only
   have hp := peek_same hc m
   cases hpk : peek s m with
   | mk s1 r =>
     rw [hpk] at hp
-    have hc1 : Calm s1 := hp.1.calm hc
+    have hc1 : Calm s1 := hp.2.1
+    have hnone : KV.has s.files m = false → KV.get s.files m = none := by
+      intro h
+      cases h' : KV.get s.files m with
+      | none => rfl
+      | some _ => simp [KV.has, h'] at h
     cases r with
     | ok =>
       simp only
       rw [hp.1.1]
       cases hg : KV.get s.files m with
-      | none => simp only [delIf, hg]; exact ⟨hp.1.1, hp.1.2.1, hp.1.2.2⟩
+      | none => simp only [delIf, hg]; exact ⟨hp.1.1, hp.1.2.1, hp.1.2.2, hc1⟩
       | some f =>
         simp only
         have hp2 := peek_same hc1 m
-        have hc2 : Calm (peek s1 m).1 := hp2.1.calm hc1
+        have hc2 : Calm (peek s1 m).1 := hp2.2.1
         have hnow : (peek s1 m).1.now = s.now := hp2.1.2.2.trans hp.1.2.2
         have hfiles : (peek s1 m).1.files = s.files := hp2.1.1.trans hp.1.1
         rw [hnow]
@@ -240,38 +318,26 @@ theorem ttlVisit_calm (tti ttl : Int) (used : Nat) (s : State) (sc : Nat) (m : N
         cases hr : ready s.now f tti ttl with
         | false =>
           simp only [Bool.false_eq_true, if_false]
-          refine ⟨?_, hp2.1.2.1.trans hp.1.2.1, hnow⟩
+          refine ⟨?_, hp2.1.2.1.trans hp.1.2.1, hnow, hc2⟩
           simp [delIf, hg, idleB, hr, hfiles]
         | true =>
           simp only [if_true]
           have hd := delete_calm hc2 m
-          refine ⟨?_, hd.2.1.trans (hp2.1.2.1.trans hp.1.2.1), hd.2.2.trans hnow⟩
+          refine ⟨?_, hd.2.1.trans (hp2.1.2.1.trans hp.1.2.1), hd.2.2.1.trans hnow, hd.2.2.2⟩
           rw [hd.1, hfiles]
           simp [delIf, hg, idleB, hr]
     | notExist =>
-      rcases hp.2 with h | h
+      rcases hp.2.2 with h | h
       · cases h
-      · have hg : KV.get s.files m = none := by
-          cases h' : KV.get s.files m with
-          | none => rfl
-          | some _ => simp [KV.has, h'] at h
-        simp only [delIf, hg]; exact ⟨hp.1.1, hp.1.2.1, hp.1.2.2⟩
+      · simp only [delIf, hnone h]; exact ⟨hp.1.1, hp.1.2.1, hp.1.2.2, hc1⟩
     | exist =>
-      rcases hp.2 with h | h
+      rcases hp.2.2 with h | h
       · cases h
-      · have hg : KV.get s.files m = none := by
-          cases h' : KV.get s.files m with
-          | none => rfl
-          | some _ => simp [KV.has, h'] at h
-        simp only [delIf, hg]; exact ⟨hp.1.1, hp.1.2.1, hp.1.2.2⟩
+      · simp only [delIf, hnone h]; exact ⟨hp.1.1, hp.1.2.1, hp.1.2.2, hc1⟩
     | persisted =>
-      rcases hp.2 with h | h
+      rcases hp.2.2 with h | h
       · cases h
-      · have hg : KV.get s.files m = none := by
-          cases h' : KV.get s.files m with
-          | none => rfl
-          | some _ => simp [KV.has, h'] at h
-        simp only [delIf, hg]; exact ⟨hp.1.1, hp.1.2.1, hp.1.2.2⟩
+      · simp only [delIf, hnone h]; exact ⟨hp.1.1, hp.1.2.1, hp.1.2.2, hc1⟩
 
 theorem foldl_ttl (tti ttl : Int) (used : Nat) (now : Int) (L : List Name) :
     ∀ (acc : State × Nat), Calm acc.1 → acc.1.now = now →
@@ -284,7 +350,7 @@ theorem foldl_ttl (tti ttl : Int) (used : Nat) (now : Int) (L : List Name) :
     simp only [List.foldl_cons]
     have hv := ttlVisit_calm tti ttl used s sc m hc
     have hnow' : s.now = now := hnow
-    rw [ih _ (calm_of_files hc m _ hv.1 hv.2.1) (hv.2.2.trans hnow'), hv.1, hnow']
+    rw [ih _ hv.2.2.2 (hv.2.2.1.trans hnow'), hv.1, hnow']
 
 theorem mem_insName (x : Name) (l : List Name) (y : Name) : y ∈ insName x l ↔ y = x ∨ y ∈ l := by
   induction l with
@@ -311,7 +377,7 @@ theorem mem_listNames (s : State) (n : Name) : n ∈ listNames s ↔ n ∈ KV.ke
   | nil => simp
   | cons k ks ih => simp only [List.foldr_cons, mem_insName, ih, List.mem_cons]
 
-theorem cleanupTTL_mem (s : State) (tti ttl : Int) (u : Usage) (hcap : s.cap = 0)
+theorem cleanupTTL_mem (s : State) (tti ttl : Int) (u : Usage) (hcap : Fits s)
     (hnd : (KV.keys s.files).Nodup) (hlat : ∀ p ∈ s.files, p.2.lat.isSome) (n : Name) (f : File) :
     (n, f) ∈ (cleanupTTL s tti ttl 0 u).1.files ↔
       (n, f) ∈ s.files ∧ ¬ (ready s.now f tti ttl = true ∧ isPersisted f = false) := by
@@ -339,7 +405,7 @@ def freed : State → List FInfo → Int
   | _, [] => 0
   | s, f :: rest => (if (delete s f.name).2 = .ok then (f.size : Int) else 0) + freed (delete s f.name).1 rest
 
-theorem policyDelete_prefix (l : List FInfo) : ∀ (s : State) (remain : Int), s.cap = 0 →
+theorem policyDelete_prefix (l : List FInfo) : ∀ (s : State) (remain : Int), Fits s →
     (KV.keys s.files).Nodup → (∀ p ∈ s.files, p.2.lat.isSome) →
     ∃ k, k ≤ l.length ∧
       (∀ n f, (n, f) ∈ (policyDelete s remain l).files ↔
@@ -356,14 +422,14 @@ theorem policyDelete_prefix (l : List FInfo) : ∀ (s : State) (remain : Int), s
       intro n f; simp [policyDelete, hr]
     · have hc : Calm s := ⟨hcap, hnd, hlat⟩
       have hd := delete_calm hc x.name
-      have hc1 : Calm (delete s x.name).1 := calm_of_files hc x.name _ hd.1 hd.2.1
+      have hc1 : Calm (delete s x.name).1 := hd.2.2.2
       have hpd : policyDelete s remain (x :: rest) =
           policyDelete (delete s x.name).1 (remain - (if (delete s x.name).2 = .ok then (x.size : Int) else 0)) rest := by
         simp only [policyDelete, hr, if_false]
         cases hdel : delete s x.name with
         | mk s1 res => cases res <;> simp
       obtain ⟨k, hk, hmem, hbud⟩ := ih (delete s x.name).1 (remain - (if (delete s x.name).2 = .ok then (x.size : Int) else 0))
-        hc1.cap hc1.nodup hc1.lat
+        hc1.fits hc1.nodup hc1.lat
       refine ⟨k + 1, by simpa using hk, ?_, ?_⟩
       · intro n f
         rw [hpd, hmem, hd.1, mem_delIf hnd]
